@@ -44,13 +44,17 @@ def Series(params: SeriesParams) -> h.Module:
     # Initialize our stack-module
     m = h.Module()
 
-    # Copy the unit-cell ports
-    for p in params.unit.ports.values():
+    # Copy the unit-cell ports, Signal- and Bundle-valued
+    for p in _ports(params.unit).values():
         m.add(deepcopy(p))
 
     # Divy up the ports by series vs parallel connections
     series_conns = _seriesconns(m, params.conns)
-    par_ports = [port for port in m.ports.values() if port not in series_conns]
+    par_ports = [
+        port
+        for port in list(m.ports.values()) + list(m.bundle_ports.values())
+        if not any(port is s for s in series_conns)
+    ]
     unit_conns = {port.name: port for port in par_ports}
 
     # Create the internal series-connected signals, and concatenate them with the series ports
@@ -63,6 +67,15 @@ def Series(params: SeriesParams) -> h.Module:
 
     # And return the module
     return m
+
+
+def _ports(unit: h.Instantiable) -> dict:
+    # The ports of `unit` as it defines them: Signals and Bundle-valued ones.
+    # Elaboration flattens the latter. Instantiators of an elaborated Module still see - and connect to - the originals.
+    from .instantiable import io
+
+    pre = getattr(unit, "_pre_flattening_io", None)
+    return dict(pre) if pre is not None else io(unit)
 
 
 def _unused_name(m: h.Module, name: str) -> str:
@@ -125,14 +138,12 @@ def Wrapper(m: h.Instantiable) -> h.Module:
     Callers of `Wrapper` are therefore responsible for considerations such as unique naming.
     """
 
-    from .instantiable import io
-
     # Initialize our wrapper-module
     wrapper = h.Module(name=f"{m.name}Wrapper")
 
     # Copy the inner-cell ports
     # Note this also serves as the connections-dict to the inner instance
-    wrapper_io = {p.name: wrapper.add(deepcopy(p)) for p in io(m).values()}
+    wrapper_io = {p.name: wrapper.add(deepcopy(p)) for p in _ports(m).values()}
 
     # Create the inner instance
     wrapper.add(h.Instance(name=_unused_name(wrapper, "inner"), of=m)(**wrapper_io))
